@@ -1631,7 +1631,7 @@ class C20(OutcomeCheck):
                   "rt::Mutex(false) with try-acquire on register); every decision, poll and result is compared with the implementation built with the futures feature. R: a future blocked in block_on completes iff "
                   "its value can be read, after a wake-up or once spuriously; a run where no wake can arrive deadlocks. Proved: the Notify lemmas of C08 (a wait completes only with the flag set, notify publishes), "
                   "fresh state per iteration. On traces: polls - 1 <= completed wake-ups + 1 for every block_on.")
-    level_note = "the Notify half is a theorem about L for all interleavings; the AtomicWaker register/take protocol over all interleavings is decided by correspondence + oracle on the bounded core"
+    level_note = "the Notify half and the AtomicWaker slot protocol (latest registration, registered-then-woken is not lost, wake during registration) are theorems about L for all interleavings; which interleavings are explored is decided by correspondence + oracle on the bounded core"
     ref_mode = "refw"
     det_family = lambda self, ctx: gen.fam_fut_core(ctx.tier)
     rnd_family = lambda self, ctx: []
